@@ -26,6 +26,7 @@ type Str struct {
 	S      string  // concrete content when B == nil
 	B      []*Term // symbolic bytes (len = string length)
 	Opaque bool    // content not modelled (formatted symbolic numbers etc.)
+	B58    []Value // when set: this string is base58.Encode(B58) (opaque text, exact inverse)
 }
 
 type Struct []Value
